@@ -28,7 +28,7 @@ def run(env, res):
                 'non-trivial when the model accepts it and it terminates; distinct by canonical program text')
     directed = [('c03-restore', fo.c03_family, env.n(220, 100000)), ('c03-restore-midloop', fo.c03_midloop_family, env.n(60, 100000)),
                 ('c03-switch', fo.c03_switch_family, env.n(48, 100000)), ('c03-jump', fo.c03_jump_family, env.n(22, 100000))]
-    flowcheck.run_streams(env, res, directed, env.n(500, 20000), weights={'call': 5, 'jump': 2.5, 'switch': 2.5, 'clear': 1.5, 'clearall': 0.6, 'set': 2},
+    flowcheck.run_streams(env, res, directed, env.n(500, 100000), weights={'call': 5, 'jump': 2.5, 'switch': 2.5, 'clear': 1.5, 'clearall': 0.6, 'set': 2},
                           random_monitor=flowcheck.monitor_all)
 
 
